@@ -121,4 +121,16 @@ example :
     Buf.getRange ⟨[0x02, 0xff], 10, .left, 6⟩ 1 4 = .ok ⟨[0x03], 3, .left, 5⟩ ∧
     Buf.setRange ⟨[0x02, 0xff], 10, .left, 6⟩ 1 2 ⟨[0x02], 2, .left, 6⟩ = .ok ⟨[0x06, 0xff], 11, .left, 5⟩ := by decide
 
+/-- composition: cutting a Buffer anywhere and concatenating the two parts gives it back -/
+theorem C05_split_join (a : ABuf) (k : Nat) (hk : k ≤ a.length) :
+    (do let x ← Buf.getRange (Buf.ofABuf a) 0 k
+        let y ← Buf.getRange (Buf.ofABuf a) k a.length
+        let (r, _, _) ← Buf.add x y
+        pure r) = .ok (Buf.ofABuf a) := by
+  simp only [bind, Except.bind, getRange_spec a 0 k (Nat.zero_le _) hk, getRange_spec a k a.length hk (Nat.le_refl _), add_spec, pure, Except.pure]
+  congr 2
+  obtain ⟨bits, side⟩ := a
+  simp only [ABuf.add, ABuf.slice, Bits.slice, ABuf.length, List.drop_zero, Nat.sub_zero, ABuf.mk.injEq, and_true]
+  rw [List.take_of_length_le (l := List.drop k bits) (by simp), List.take_append_drop]
+
 end Schc
